@@ -18,4 +18,84 @@ theorem splitAt1_none (c : Char) (l : List Char) (h : c ∉ l) : splitAt1 c l = 
     have hx : x ≠ c := fun e => h.1 e.symm
     simp [splitAt1, hx, ih h.2]
 
+theorem dropPrefix?_append (a b s : List Char) :
+    dropPrefix? (a ++ b) s = (dropPrefix? a s).bind (fun r => dropPrefix? b r) := by
+  induction a generalizing s with
+  | nil => simp [dropPrefix?]
+  | cons p ps ih =>
+    cases s with
+    | nil => simp [dropPrefix?]
+    | cons x xs =>
+      by_cases hpx : p = x
+      · simp [dropPrefix?, hpx, ih]
+      · simp [dropPrefix?, hpx]
+
+theorem startsWith_of_append (s a b : List Char) (h : startsWith s (a ++ b) = true) : startsWith s a = true := by
+  unfold startsWith at *
+  rw [dropPrefix?_append] at h
+  cases hd : dropPrefix? a s with
+  | none => simp [hd] at h
+  | some r => simp
+
+theorem isInfix_of_append (a b s : List Char) (h : isInfix (a ++ b) s = true) : isInfix a s = true := by
+  induction s with
+  | nil =>
+    simp only [isInfix, List.isEmpty_iff, List.append_eq_nil_iff, decide_eq_true_eq] at h
+    simp [isInfix, h.1]
+  | cons x xs ih =>
+    simp only [isInfix, Bool.or_eq_true] at h ⊢
+    rcases h with h | h
+    · exact Or.inl (startsWith_of_append _ a b h)
+    · exact Or.inr (ih h)
+
+theorem dropPrefix?_self_append (a b : List Char) : dropPrefix? a (a ++ b) = some b := by
+  induction a with
+  | nil => simp [dropPrefix?]
+  | cons p ps ih => simp [dropPrefix?, ih]
+
+theorem isInfix_self_append (a b : List Char) : isInfix a (a ++ b) = true := by
+  cases hab : a ++ b with
+  | nil =>
+    have : a = [] := (List.append_eq_nil_iff.mp hab).1
+    simp [isInfix, this]
+  | cons x xs =>
+    simp only [isInfix, Bool.or_eq_true]
+    left
+    unfold startsWith
+    rw [← hab, dropPrefix?_self_append]; rfl
+
+theorem isInfix_of_startsWith (s a : List Char) (h : startsWith s a = true) : isInfix a s = true := by
+  cases s with
+  | nil =>
+    unfold startsWith at h
+    cases a with
+    | nil => simp [isInfix]
+    | cons p ps => simp [dropPrefix?] at h
+  | cons x xs => simp [isInfix, h]
+
+/-- a string that does not contain `pre` contains no string that starts with `pre` -/
+theorem sContains_append_false (s pre l : String) (h : sContains s pre = false) : sContains s (pre ++ l) = false := by
+  unfold sContains at *
+  rw [String.toList_append]
+  cases hc : isInfix (pre.toList ++ l.toList) s.toList with
+  | false => rfl
+  | true => rw [isInfix_of_append _ _ _ hc] at h; cases h
+
+theorem ne_append_of_not_contains (s pre l : String) (h : sContains s pre = false) : s ≠ pre ++ l := by
+  intro e
+  subst e
+  unfold sContains at h
+  rw [String.toList_append, isInfix_self_append] at h
+  cases h
+
+theorem sStartsWith_append_false (s pre l : String) (h : sContains s pre = false) : sStartsWith s (pre ++ l) = false := by
+  cases hc : sStartsWith s (pre ++ l) with
+  | false => rfl
+  | true =>
+    unfold sStartsWith at hc
+    have := isInfix_of_startsWith _ _ hc
+    have h2 := sContains_append_false s pre l h
+    unfold sContains at h2
+    rw [this] at h2; cases h2
+
 end Prov.Text
